@@ -131,14 +131,17 @@ def render(case):
         # the value is parsed on its own: the parser reports line 0 of the value; the true line in snooty.toml is len(toml)
         faults.append({"file": "snooty.toml", "line": 0, "alt_line": len(toml), "classes": ["DocUtilsParseError"],
                        "kind": "config_substitution", "in": "config", "n": k})
-        toml.append(f'bad{k} = ":bogusrole{k}:`x`"')
+        # odd k: the value is nothing but the faulty role; even k: the faulty role sits in running text
+        toml.append(f'bad{k} = ":bogusrole{k}:`x`"' if k % 2 else f'bad{k} = "Some :bogusrole{k}:`x` text"')
     # a faultless substitution AFTER the faulty ones: diagnostics must be kept per substitution, not only for the last
     toml.append('zlast = "also *fine*"')
     for k in cfg.get("bad_banners", []):
         toml += ["", "[[banners]]", 'targets = ["*"]', 'variant = "info"']
         faults.append({"file": "snooty.toml", "line": 0, "alt_line": len(toml), "classes": ["DocUtilsParseError"],
                        "kind": "config_banner", "in": "config", "n": k})
-        toml.append(f'value = "Banner :bogusbanner{k}:`x`"')
+        # even k: faulty role in running text; odd k: the value is nothing but the faulty role (parses to NO content, only
+        # a diagnostic - the diagnostic must be delivered all the same)
+        toml.append(f'value = ":bogusbanner{k}:`x`"' if k % 2 else f'value = "Banner :bogusbanner{k}:`x`"')
     files["snooty.toml"] = "\n".join(toml) + "\n"
 
     # pages
@@ -221,6 +224,77 @@ def n_outputs(case, fileid):
 # --------------------------------------------------------------------------------------
 # e2e: running the real code
 # --------------------------------------------------------------------------------------
+
+
+# --------------------------------------------------------------------------------------
+# repair: a seeded fault is repaired (or the faulty file deleted) in an OPEN project; what the next postprocessing run
+# delivers per file must be what a clean build of the new contents delivers - no stale diagnostic, none lost
+# --------------------------------------------------------------------------------------
+def fault_targets(case):
+    """files of an e2e case that carry a seeded fault the author can repair by editing that file"""
+    out = []
+    for p in case["pages"]:
+        if any(b["t"] in PAGE_FAULTS for b in p["blocks"]):
+            out.append({"type": "page", "name": p["name"], "path": p["name"] + ".txt"})
+    for inc in case.get("includes", []):
+        if any(b["t"] in PAGE_FAULTS for b in inc["blocks"]):
+            out.append({"type": "include", "name": inc["name"], "path": f"includes/{inc['name']}.rst"})
+    for y in case.get("yaml", []):
+        if y.get("invalid") or any(b["t"] in YAML_FAULTS for d in y.get("docs", []) for b in d["blocks"]):
+            out.append({"type": "yaml", "name": y["name"], "path": f"includes/{y['type']}-{y['name']}.yaml"})
+    return out
+
+
+def repaired(case, target):
+    c = copy.deepcopy(case)
+
+    def clean(blocks):
+        return [({"t": "text", "n": b["n"]} if b["t"] in PAGE_FAULTS or b["t"] in YAML_FAULTS else b) for b in blocks]
+    if target["type"] == "page":
+        for p in c["pages"]:
+            if p["name"] == target["name"]:
+                p["blocks"] = clean(p["blocks"])
+    elif target["type"] == "include":
+        for inc in c["includes"]:
+            if inc["name"] == target["name"]:
+                inc["blocks"] = clean(inc["blocks"])
+    else:
+        for y in c["yaml"]:
+            if y["name"] == target["name"]:
+                if y.get("invalid"):
+                    y.pop("invalid")
+                    y["docs"] = [{"ref": "fixed0", "blocks": [{"t": "text", "n": 900}]}]
+                else:
+                    for d in y["docs"]:
+                        d["blocks"] = clean(d["blocks"])
+    return c
+
+
+def hexify(files):
+    return {k: ({"hex": v.hex()} if isinstance(v, bytes) else v) for k, v in files.items()}
+
+
+def run_repair(case):
+    from impl import c12_e2e
+    files, _ = render(case["base"])
+    t = case["target"]
+    ops = []
+    if case["how"] == "delete":
+        ops.append({"op": "delete", "path": t["path"]})
+    else:
+        files2, _ = render(repaired(case["base"], t))
+        ops.append({"op": "update", "path": t["path"], "text": files2["source/" + t["path"]], "via": case.get("via", "disk")})
+    ops.append({"op": "postprocess"})
+    if case.get("again"):
+        # the fault comes back (the old text is written again): its diagnostics have to come back too
+        if case["how"] == "delete":
+            ops.append({"op": "create", "path": t["path"], "text": files["source/" + t["path"]]})
+        else:
+            ops.append({"op": "update", "path": t["path"], "text": files["source/" + t["path"]], "via": case.get("via", "disk")})
+        ops.append({"op": "postprocess"})
+    res = c12_e2e.run_history({"mode": "disk", "files": hexify(files), "ops": ops}, alias_probe=False)
+    return {"checks": res["checks"], "exc": res["exc"]}
+
 
 class RecDB(PageDatabase):
     """records the producers exactly as they reach the page database (no behaviour change)"""
@@ -396,7 +470,9 @@ class C14(core.PropertyCheck):
         "the producers fed to the model in e2e cases are recorded by a PageDatabase subclass installed after Project() returned (no behaviour change); "
         "the batches of __init__ are observed merged (initialization_diagnostics), so the on_diagnostics channel is compared per file, not per call",
         "exit status is taken from the real snooty.main.main() run in-process (SystemExit caught) and from `python -m snooty build` subprocesses for six projects",
-        "language-server delivery (pending_diagnostics / publishDiagnostics) and Project.update()/delete() are not exercised; nested projects and .ast pages are not seeded",
+        "language-server delivery (pending_diagnostics / publishDiagnostics) is not exercised; nested projects and .ast pages are not seeded",
+        "repair cases (a faulty file edited / deleted / restored in an open project through Project.update()/delete(), then postprocess()) compare the per-file "
+        "diagnostics with a clean build of the same contents (harness/impl/c12_e2e.py); they have no model counterpart (direct oracle only)",
     ]
 
     # ---- hypotheses -------------------------------------------------------------------
@@ -538,7 +614,8 @@ class C14(core.PropertyCheck):
         if rng.random() < 0.15:
             counter[0] += 1
             rng.choice(pages)["blocks"].append({"t": "bad_image_file", "n": counter[0]})
-        cfg = {"bad_substitutions": [1] if rng.random() < 0.3 else [], "bad_banners": [1] if rng.random() < 0.2 else [],
+        cfg = {"bad_substitutions": rng.choice([[1], [2], [1, 2]]) if rng.random() < 0.3 else [],
+               "bad_banners": rng.choice([[1], [2], [2, 3]]) if rng.random() < 0.25 else [],
                "fail": rng.random() < 0.5}
         case = {"kind": "e2e", "pages": pages, "includes": includes, "yaml": yamls, "config": cfg,
                 "toc_missing": [f"nopage-{j}" for j in range(rng.choice([0, 0, 1, 2]))]}
@@ -553,6 +630,22 @@ class C14(core.PropertyCheck):
         else:
             cfg["silence"] = [c for c in classes if rng.random() < 0.35]
         return case
+
+    def gen_repair(self, rng):
+        """an e2e project one of whose faulty files is then repaired (or deleted) in the open project"""
+        for _ in range(20):
+            base = self.gen_e2e(rng)
+            base["config"]["silence"] = []
+            ts = fault_targets(base)
+            if not ts:
+                continue
+            # invalid YAML files get extra weight: their diagnostics travel through the orphan map, not a page
+            ys = [t for t in ts if t["type"] == "yaml"]
+            t = rng.choice(ys) if ys and rng.random() < 0.5 else rng.choice(ts)
+            how = "delete" if (t["path"] != "index.txt" and rng.random() < 0.35) else "update"
+            return {"kind": "repair", "base": base, "target": t, "how": how,
+                    "via": "buffer" if (how == "update" and rng.random() < 0.3) else "disk", "again": rng.random() < 0.4}
+        return None
 
     def singles(self):
         """one project per fault kind and container, unsilenced and silenced"""
@@ -581,7 +674,7 @@ class C14(core.PropertyCheck):
             if extra == "subst":
                 case["config"]["bad_substitutions"] = [1, 2]
             if extra == "banner":
-                case["config"]["bad_banners"] = [1]
+                case["config"]["bad_banners"] = [1, 2]
             if extra == "asset":
                 pages[1]["blocks"].append({"t": "bad_image_file", "n": 2})
             if extra == "multi_equal":
@@ -604,6 +697,10 @@ class C14(core.PropertyCheck):
             yield from self.singles()
         for _ in range(n_e2e):
             yield self.gen_e2e(rng)
+        for _ in range(max(8, budget // 30) if tier != "search" else 40):
+            c = self.gen_repair(rng)
+            if c:
+                yield c
         n_walk = budget // 5
         for _ in range(n_walk):
             yield self.gen_walk(rng)
@@ -668,6 +765,8 @@ class C14(core.PropertyCheck):
     # ---- implementation ---------------------------------------------------------------
     def run_impl(self, case):
         kind = case["kind"]
+        if kind == "repair":
+            return run_repair(case)
         if kind == "merge":
             return self.run_merge(case)
         if kind == "walk":
@@ -727,6 +826,8 @@ class C14(core.PropertyCheck):
 
     # ---- model ------------------------------------------------------------------------
     def model_request(self, case):
+        if case["kind"] == "repair":
+            return None   # a differential of the implementation against a clean build of the new contents (direct oracle)
         if case["kind"] == "merge":
             sev = lambda c: int(getattr(sd, c).severity)
             cv = lambda ds: [{"c": d["c"], "l": d["l"], "s": sev(d["c"]), "t": d["t"]} for d in ds]
@@ -762,6 +863,8 @@ class C14(core.PropertyCheck):
         return core.run_driver([req])[0]
 
     def compare(self, case, model, impl):
+        if case["kind"] == "repair":
+            return None
         if impl.get("exc"):
             return f"implementation raised {impl['exc']}"
         if case["kind"] == "merge":
@@ -811,12 +914,33 @@ class C14(core.PropertyCheck):
     # ---- the property itself ----------------------------------------------------------
     def oracle(self, case, impl):
         if impl.get("exc"):
-            return f"crash: {impl['exc']}"
+            e = impl["exc"]
+            return f"crash: {e['type'] + ' @ ' + e['where'] if isinstance(e, dict) else e}"
         if case["kind"] == "merge":
             return self.oracle_merge(case, impl)
         if case["kind"] == "walk":
             return self.oracle_walk(case, impl)
+        if case["kind"] == "repair":
+            return self.oracle_repair(case, impl)
         return self.oracle_e2e(case, impl)
+
+    def oracle_repair(self, case, impl):
+        t = case["target"]
+        for chk in impl["checks"]:
+            for d in chk["diffs"]:
+                if d["kind"] != "diagnostics":
+                    continue     # pages / metadata converging is C12's statement
+                step = "repaired" if chk["after"] <= 2 else "brought back"
+                verb = {"delete": "deleted", "update": "edited"}[case["how"]]
+                if d["stale_or_extra"]:
+                    x = d["stale_or_extra"][0]
+                    return (f"stale: after {t['path']} was {verb} (fault {step}), the open project still delivers {x[0]} for {d['file']} "
+                            f"which a clean build of the same contents does not report: {x}")
+                if d["missing"]:
+                    x = d["missing"][0]
+                    return (f"lost: after {t['path']} was {verb} (fault {step}), the open project no longer delivers {x[0]} for {d['file']} "
+                            f"which a clean build of the same contents reports: {x}")
+        return None
 
     def oracle_merge(self, case, impl):
         # last write per output id, as a page database holds it
@@ -955,6 +1079,8 @@ class C14(core.PropertyCheck):
             return "crash:" + desc.split(":")[1].strip()
         if head == "silenced":
             return "silenced:" + desc.split(" ")[1] + ":" + desc.split("through ")[1].split(" ")[0]
+        if head in ("stale", "lost"):
+            return f"repair-{head}:" + desc.split("delivers ")[1].split(" ")[0] + ":" + case["target"]["type"] + ":" + case["how"]
         if head == "missing":
             return "missing:" + desc.split("seeded ")[1].split(" ")[0] + ":" + desc.split("(in ")[1].split(")")[0]
         return head
@@ -1032,6 +1158,8 @@ class C14(core.PropertyCheck):
             return json.dumps(case, sort_keys=True) if any(impl["merged"].values()) else None
         if case["kind"] == "walk":
             return json.dumps(case, sort_keys=True) if impl["seen"] else None
+        if case["kind"] == "repair":
+            return json.dumps(case, sort_keys=True) if impl["checks"] else None
         return json.dumps(case, sort_keys=True) if any(ds for _, ds in impl["set"]) or impl["silence"] else None
 
     def branch_tags(self, case, model, impl):
@@ -1046,6 +1174,8 @@ class C14(core.PropertyCheck):
                 tags.append("merge:silenced")
             if len(case["others"]) >= 2:
                 tags.append("merge:two-or-more-others")
+        elif case["kind"] == "repair":
+            tags.append(f"repair:{case['target']['type']}:{case['how']}:{case.get('via', 'disk')}" + (":again" if case.get("again") else ""))
         elif case["kind"] == "e2e":
             _, faults = render(case)
             for f in faults:
